@@ -169,8 +169,32 @@ func computeValidationFacts(p *load.Program, opsSlice []string) validationFacts 
 		f.Detail = append(f.Detail, "ArgumentConditions.Validate not found")
 		return f
 	}
-	res := origin.NewResolver()
 	recv := val.Params[0]
+	scanValidationConds(p, val, recv, &f)
+	// the argument index: decided on the paths of one iteration of the validation loop.  For a sample of index values the
+	// feasible paths are those whose comparisons of the element's Argument with constants hold; an index is rejected when
+	// every feasible path records a problem, accepted when some feasible path records none.
+	f.ArgBounded, f.ArgMax = argumentBound(val, recv)
+	// a loop that hands every condition to a helper and appends whatever it reports: the facts are those of the helper
+	if h, prm := validationDelegate(val, recv); h != nil {
+		var hf validationFacts
+		scanValidationConds(p, h, nil, &hf)
+		if hf.OpsRestricted && !f.OpsRestricted {
+			f.OpsRestricted, f.OpsPos = true, hf.OpsPos
+		}
+		if !f.ArgBounded {
+			f.ArgBounded, f.ArgMax = argumentBoundIn(h, h.Blocks[0], nil, func(v ssa.Value) bool { return isFieldOfParam(flow.StripConv(v), prm, "Argument") })
+		}
+	}
+	validationEnforcement(p, val, &f)
+	return f
+}
+
+// scanValidationConds looks at the tests of a validation function that run for every list / every condition.  recv is the
+// list parameter (nil in a per-condition helper).
+func scanValidationConds(p *load.Program, val *ssa.Function, recv *ssa.Parameter, fp *validationFacts) {
+	res := origin.NewResolver()
+	f := fp
 	for _, b := range val.Blocks {
 		ifi, ok := flow.LastIf(b)
 		if !ok {
@@ -193,7 +217,7 @@ func computeValidationFacts(p *load.Program, opsSlice []string) validationFacts 
 					isHeader = true
 				}
 			}
-			if arg, _, ok := flow.LenPred(cd.V, cd.Pol); ok && arg == ssa.Value(recv) {
+			if arg, _, ok := flow.LenPred(cd.V, cd.Pol); ok && recv != nil && arg == ssa.Value(recv) {
 				isHeader = true // an emptiness guard on the list itself (early return for an empty list)
 			}
 			if !isHeader {
@@ -207,7 +231,7 @@ func computeValidationFacts(p *load.Program, opsSlice []string) validationFacts 
 		case *ssa.BinOp:
 			// len(a) == 0
 			if lc, ok := x.X.(*ssa.Call); ok {
-				if bi, ok := lc.Call.Value.(*ssa.Builtin); ok && bi.Name() == "len" && lc.Call.Args[0] == ssa.Value(recv) {
+				if bi, ok := lc.Call.Value.(*ssa.Builtin); ok && bi.Name() == "len" && recv != nil && lc.Call.Args[0] == ssa.Value(recv) {
 					if k, ok := flow.ConstInt(x.Y); ok && k == 0 && x.Op == token.EQL && appendsStringProblem(b, succ(true)) {
 						f.NonEmpty = true
 					}
@@ -267,11 +291,12 @@ func computeValidationFacts(p *load.Program, opsSlice []string) validationFacts 
 			}
 		}
 	}
-	// the argument index: decided on the paths of one iteration of the validation loop.  For a sample of index values the
-	// feasible paths are those whose comparisons of the element's Argument with constants hold; an index is rejected when
-	// every feasible path records a problem, accepted when some feasible path records none.
-	f.ArgBounded, f.ArgMax = argumentBound(val, recv)
-	// enforcement in toSyscallsWithConditions: Conditions reach the result only when Validate() returned nothing
+}
+
+// validationEnforcement: in toSyscallsWithConditions, Conditions reach the result only when Validate() returned nothing.
+func validationEnforcement(p *load.Program, val *ssa.Function, fp *validationFacts) {
+	f := fp
+	res := origin.NewResolver()
 	ts := p.Func(load.PkgRoot, "SyscallGroup.toSyscallsWithConditions")
 	if ts != nil {
 		vcalls := callsToFn(ts, val)
@@ -343,7 +368,142 @@ func computeValidationFacts(p *load.Program, opsSlice []string) validationFacts 
 		}
 		f.Enforced = enforced
 	}
-	return f
+}
+
+// validationDelegate: the validation loop visits every element of the list, hands it (by address or by value) to one
+// function of the package and appends everything that function returns to the list of problems, unconditionally.
+// Returns the function and its parameter that holds the condition.
+func validationDelegate(val *ssa.Function, recv *ssa.Parameter) (*ssa.Function, *ssa.Parameter) {
+	for _, l := range flow.CountedLoops(val) {
+		if l.Over != ssa.Value(recv) || !l.Unconditional() {
+			continue
+		}
+		for _, b := range l.BodyBlocks() {
+			for _, in := range b.Instrs {
+				hc, ok := in.(*ssa.Call)
+				if !ok {
+					continue
+				}
+				h := flow.Callee(hc)
+				if h == nil || h.Pkg == nil || h.Pkg.Pkg.Path() != load.PkgRoot || len(h.Blocks) == 0 || h.Signature.Results().Len() != 1 || !isStringSlice(h.Signature.Results().At(0).Type()) {
+					continue
+				}
+				// the argument that is the current element
+				var prm *ssa.Parameter
+				for k, a := range hc.Call.Args {
+					if k >= len(h.Params) {
+						break
+					}
+					if ia, ok := a.(*ssa.IndexAddr); ok && ia.X == ssa.Value(recv) && l.IsIndex(ia.Index) {
+						prm = h.Params[k]
+					}
+					if _, ok := l.ElementOf(a); ok {
+						prm = h.Params[k]
+					}
+					if ld, ok := a.(*ssa.UnOp); ok && ld.Op == token.MUL {
+						if ia, ok := ld.X.(*ssa.IndexAddr); ok && ia.X == ssa.Value(recv) && l.IsIndex(ia.Index) {
+							prm = h.Params[k]
+						}
+					}
+				}
+				if prm == nil || hc.Referrers() == nil {
+					continue
+				}
+				// its result is appended to a []string in a block that every iteration passes
+				appended := false
+				for _, ref := range *hc.Referrers() {
+					ap, ok := ref.(*ssa.Call)
+					if !ok || isAppend(ap) == nil || len(ap.Call.Args) != 2 || ap.Call.Args[1] != ssa.Value(hc) {
+						continue
+					}
+					if flow.Dominates(l.Body, ap.Block()) && len(flow.DomConds(ap.Block())) <= len(flow.DomConds(l.Body)) {
+						appended = true
+					}
+				}
+				if appended && flow.Dominates(l.Body, hc.Block()) && len(flow.DomConds(hc.Block())) <= len(flow.DomConds(l.Body)) && returnsWhatItRecords(h) {
+					return h, prm
+				}
+			}
+		}
+	}
+	return nil, nil
+}
+
+// returnsWhatItRecords: the helper never returns nil (or a fresh empty list) after it has recorded a problem.
+func returnsWhatItRecords(h *ssa.Function) bool {
+	var recording []*ssa.BasicBlock
+	for _, b := range h.Blocks {
+		for _, in := range b.Instrs {
+			if recordsProblem(in, 0) {
+				recording = append(recording, b)
+			}
+		}
+	}
+	for _, ret := range flow.Returns(h) {
+		v := flow.RetResults(ret)[0]
+		derived := false
+		var walk func(v ssa.Value, depth int)
+		walk = func(v ssa.Value, depth int) {
+			if depth > 6 {
+				return
+			}
+			switch x := v.(type) {
+			case *ssa.Phi:
+				for _, e := range x.Edges {
+					walk(e, depth+1)
+				}
+			case *ssa.Call:
+				if isAppend(x) != nil {
+					derived = true
+				}
+			}
+		}
+		walk(v, 0)
+		if derived {
+			continue
+		}
+		for _, b := range recording {
+			if b == ret.Block() || flow.Reachable(b, nil)[ret.Block()] {
+				return false
+			}
+		}
+	}
+	return true
+}
+
+// isFieldOfParam: v is <prm>.<field> (prm a struct or a pointer to one, possibly spilled at entry).
+func isFieldOfParam(v ssa.Value, prm *ssa.Parameter, field string) bool {
+	base := func(x ssa.Value) bool {
+		if x == ssa.Value(prm) {
+			return true
+		}
+		if al, ok := x.(*ssa.Alloc); ok {
+			if st := flow.OnlyStore(al); st != nil && st.Val == ssa.Value(prm) {
+				return true
+			}
+		}
+		if ld, ok := x.(*ssa.UnOp); ok && ld.Op == token.MUL {
+			if al, ok := ld.X.(*ssa.Alloc); ok {
+				if st := flow.OnlyStore(al); st != nil && st.Val == ssa.Value(prm) {
+					return true
+				}
+			}
+		}
+		return false
+	}
+	switch x := v.(type) {
+	case *ssa.UnOp:
+		if fa, ok := x.X.(*ssa.FieldAddr); ok && x.Op == token.MUL && base(fa.X) {
+			st := fa.X.Type().Underlying().(*types.Pointer).Elem().Underlying().(*types.Struct)
+			return st.Field(fa.Field).Name() == field
+		}
+	case *ssa.Field:
+		if base(x.X) {
+			st := x.X.Type().Underlying().(*types.Struct)
+			return st.Field(x.Field).Name() == field
+		}
+	}
+	return false
 }
 
 func buildE1(e *Env) *e1Model {
@@ -736,16 +896,20 @@ func argumentBound(val *ssa.Function, recv *ssa.Parameter) (bool, int64) {
 	if loop == nil {
 		return false, -1
 	}
+	return argumentBoundIn(val, loop.Body, loop.Header, func(v ssa.Value) bool {
+		f, ok := loop.ElementOf(flow.StripConv(v))
+		return ok && f == "Argument"
+	})
+}
+
+// argumentBoundIn enumerates the paths from start to stop (or to a return) and decides which argument indices they accept.
+func argumentBoundIn(val *ssa.Function, start, stop *ssa.BasicBlock, isArg func(v ssa.Value) bool) (bool, int64) {
 	g := flow.G(val)
 	type path struct {
 		preds    []flow.IntPred
 		appended bool
 	}
 	var paths []path
-	isArg := func(v ssa.Value) bool {
-		f, ok := loop.ElementOf(flow.StripConv(v))
-		return ok && f == "Argument"
-	}
 	blockAppends := func(b *ssa.BasicBlock) bool {
 		for _, in := range b.Instrs {
 			if recordsProblem(in, 0) {
@@ -766,7 +930,7 @@ func argumentBound(val *ssa.Function, recv *ssa.Parameter) (bool, int64) {
 		if len(paths) > 4096 {
 			return
 		}
-		if b == loop.Header {
+		if b == stop {
 			paths = append(paths, path{append([]flow.IntPred{}, cur.preds...), cur.appended})
 			return
 		}
@@ -798,7 +962,7 @@ func argumentBound(val *ssa.Function, recv *ssa.Parameter) (bool, int64) {
 			walk(sx, cur, seen)
 		}
 	}
-	walk(loop.Body, path{}, map[*ssa.BasicBlock]bool{})
+	walk(start, path{}, map[*ssa.BasicBlock]bool{})
 	if len(paths) == 0 {
 		return false, -1
 	}
